@@ -151,6 +151,8 @@ def _history_facts(rec):
                 facts['raised_tags'].add(fx[2])
             if fx[0] == 'ctl' and fx[1] == 'kill':
                 facts['kill_texts'].add(fx[2])
+            if fx[0] == 'soon' and fx[1] == 'kill':
+                facts['kill_texts'].add(fx[2])
     for a in rec['acts']:
         if a['kind'] == 'kill':
             facts['kill_texts'].add(a['arg'])
@@ -221,6 +223,11 @@ def judge_c02(rec):
             bad('future-mismatch', 'EXCEPTED with %s but future %s, result() %s' % (exc, fut, fin['result']))
         if fin.get('future_exc_is_state_exc') is False:
             bad('exception-identity', 'future().exception() is not the exception object reported by exception()')
+        if exc is not None and exc[0] == 'ProgError' and facts['raised_tags'] and exc[1] not in facts['raised_tags']:
+            bad('not-original-exception', 'EXCEPTED with %s, which nothing in this run raised (raised: %s)' % (exc, sorted(map(str, facts['raised_tags']))))
+        elif exc is not None and exc[0] != 'ProgError' and facts['raised_tags'] and not rec['case'].get('other_exceptions_expected'):
+            # the run raised its own (tagged) exceptions only: whatever ended the process is one of them, not an error of the machinery
+            bad('not-original-exception', 'EXCEPTED with %s; the exceptions raised in this run were %s' % (exc, sorted(map(str, facts['raised_tags']))))
         if fin['killed'] or fin['is_successful'] or fin['successful'][0] != 'raise':
             bad('accessor-mismatch', 'EXCEPTED but killed()/successful say %s %s %s' % (fin['killed'], fin['is_successful'], fin['successful']))
     elif state == 'killed':
